@@ -58,3 +58,14 @@ claim("C13", "Real OSMRoadNetwork/route on bounded in-memory graphs with symboli
       "haversine routes and a finite snapping set.", _NOTE + " Snapping has no symbolic content (finite enumeration).", "4/C13")
 claim("C14", "Real OSMRoadNetwork.__init__ + route (networkx A*) with symbolic edge lengths and finite speed profiles: the returned inner route is no slower than any simple path, for every length assignment "
       "within the bounds; searches exhausted.", _NOTE + " Bounded graphs (4 junctions), finite speed sets; Denver graph outside.", "4/C14")
+
+claim("C01", "Order-independence decided per order-sensitive site: the unordered container is replaced by a view with a solver-chosen iteration order and the real function is run under two orders on the same symbolic state "
+      "(charger ranking, nearest-entity ring search, price keys, end-to-end StepSimulation.update with fleet and plug sets permuted); an AST inventory of unordered iterations is regenerated and classified on every run.",
+      _NOTE + " Whole-scenario runs through file handlers are outside the claim; sites classified insensitive by form are a syntactic argument.", "4/C01")
+claim("C04", "One-step ledger/physics laws decided on the real vehicle update (T-upd), on the six mechatronics kernels with symbolic vehicle definitions, and on a z3 encoding generated from the AST of TabularPowercurve.charge "
+      "(loop-invariant form for any duration + unrolled form with unwinding obligations and translation validation).", _NOTE, "4/C04",
+      technique=TECH + "; plus direct z3 encoding generated from the function's AST (py2smt) for the charge-curve loop")
+claim("C06", "Real traverse_up_to / traverse / move executed symbolically (symbolic lengths, times, finite speed set, solver-chosen split cell): split/merge, junction, whole-second and distance laws on 1- and 2-link routes, "
+      "plus the per-step movement oracle on the vehicle update.", _NOTE + " Cell geometry (h3) is by contract.", "4/C06")
+claim("C19", "Event/state agreement decided on the real vehicle update and on the real report builders / StatsHandler with symbolic amounts, times and counts, at the level of Report objects.",
+      _NOTE + " Written log files and their parsing are outside the claim (I/O).", "4/C19")
